@@ -1,12 +1,15 @@
 #!/bin/bash
-# Applies a seeded change (patch.diff) to a scratch copy of /repo and runs every property check on it.
-# usage: seed_eval.sh <patch.diff> ; prints the properties that reported a violation.
+# Applies a seeded change (patch.diff) to a scratch copy of /repo and runs every property check on it;
+# prints only violations that do not already occur on the unchanged tree.
+# usage: seed_eval.sh <patch.diff>
 patch=${1:?patch}
 d=$(mktemp -d /tmp/uqseed.XXXXXX)
 trap 'rm -rf "$d"' EXIT
 rsync -a --exclude .git /repo/ "$d/repo/"
+mkdir -p "$d/ev0" "$d/ev"
+/verif/bin/uqcheck -property all -repo "$d/repo" -verif /verif -evidence-dir "$d/ev0" 2>&1 | grep -E "^  violated" | sed -E 's/ at [^ ]+:[0-9]+.*//' | sort -u > "$d/base.txt"
 if ! (cd "$d/repo" && patch -p1 -s --no-backup-if-mismatch < "$patch"); then echo "PATCH DOES NOT APPLY"; exit 3; fi
-mkdir -p "$d/ev"
 out=$(/verif/bin/uqcheck -property all -repo "$d/repo" -verif /verif -evidence-dir "$d/ev" 2>&1 | grep -v conda)
-echo "$out" | grep -E "^  violated|^VIOLATION|LOAD FAILURE" | cut -c1-${SEED_COLS:-330}
-if echo "$out" | grep -q "^VIOLATION"; then exit 0; else echo "NOT DETECTED by any check"; exit 1; fi
+if echo "$out" | grep -q "LOAD FAILURE"; then echo "$out" | head -5; exit 4; fi
+new=$(echo "$out" | grep -E "^  violated" | while IFS= read -r line; do k=$(echo "$line" | sed -E 's/ at [^ ]+:[0-9]+.*//'); grep -qxF "$k" "$d/base.txt" || echo "$line"; done)
+if [ -n "$new" ]; then echo "$new" | cut -c1-${SEED_COLS:-300}; exit 0; else echo "NOT DETECTED by any check"; exit 1; fi
